@@ -28,12 +28,29 @@ def run(ctx, prop="C08"):
             inconclusive = "monitors observed too little: %s" % agg["stats"]
         rule = ("each evaluation: a daemon incarnation (fresh file, or restarted over a segment holding a previous incarnation's Synchronized record) fed a prefix free of synchronised reports: all sequences up to length 3 (quick) / 5 (thorough) over the 8 non-synchronised outcome kinds, then random ones followed by a synchronised report; "
                 "after each message the published record must say Unknown, and a real ClockBoundClient evaluated at virtual uptimes {1 s, 4.9 s, 5 s, 60 s, 999 s, 1000 s + 1 ns, 1e6 s} must report Unknown; distinct_nontrivial = distinct (sequence, drift, restart) triples")
+    tl_info = None
+    if prop == "C08":
+        # The whole release binary: the record must track the history the *process* has seen, also
+        # when the segment's location only becomes usable after chronyd has already answered.
+        from . import c13real, sandbox
+        if sandbox.available():
+            scripts = [{"phases": [[3.2, "answer"], [4.2, "absent"]], "obstacle_until_s": 3.6},
+                       {"phases": [[3.2, "answer"], [4.2, "absent"]], "obstacle_until_s": 1.5},
+                       [[3.2, "answer"], [4.2, "absent"]]]
+            judged, tviol, tsamples, tincon = c13real.run_timelines(ctx, scripts)
+            for v in tviol:
+                viol.append({"sig": "whole-binary-record-does-not-track-history", "detail": v["detail"], "replay": v.get("replay", "")})
+            tl_info = {"status_samples_judged": judged, "timelines": tsamples}
+            if tincon:
+                inconclusive = tincon
+            ctx.log("whole binary, segment location usable late: %d status samples judged" % judged)
     coverage = {
         "evaluations": agg["evaluations"],
         "distinct_nontrivial": agg["distinct"],
         "rule": rule,
         "samples": samples[:3],
         "stats": agg["stats"],
+        "whole_binary_timelines": tl_info,
     }
     finish(ctx, coverage, viol, inconclusive, assumptions=["expected bounds use dyadic wire values so that the README formula is exact in integers (independent of C07's arithmetic)"])
 
